@@ -345,6 +345,17 @@ def r4_signature(ck, prog, run):
                     same_data = isinstance(o2.attrs["_data"], Num) and o2.attrs["_data"].expr == z.attrs["_data"].expr
                     ck.same("R4", fi.where, f"{clsname}.{hname}() [{backend}]", "changes only the container: same class, same data term, every attribute unchanged",
                             o2.cls is z.cls and not bad and same_data, found="; ".join(bad) or str(o2.attrs["_data"])[:100], nontrivial=True)
+    # ... also when an attribute holds a legitimate value that is false in a Boolean test (an empty meta dict): "unset" is None, not falsy
+    for clsname in ("Signal", "RadioSignal", "DualPolarizationSignal"):
+        z = make_signal(prog, clsname, nchan=4, freq_align="top", pol_type="circular")
+        z.attrs["_meta"] = DictV({})
+        ev = ck.evaluator()
+        o = ck.attempt("R4", like.where, f"{clsname}.like(z), z.meta == {{}}", "evaluates", lambda: ev.call(like, [z], {}, cls_val=__import__("pbverif.values", fromlist=["ClassV"]).ClassV(z.cls)), ev=ev,
+                       allowed_guards=[])
+        if o is not None:
+            m = o.attrs.get("_meta")
+            ck.same("R4", like.where, f"{clsname}.like(z), z.meta == {{}}", "an empty meta dict is reproduced as an empty dict (not replaced by the default None)",
+                    isinstance(m, DictV) and not m.d, found=repr(m)[:80], nontrivial=True)
     # cross-class like() sites are satisfiable
     n_cross = 0
     for f in prog.all_functions:
